@@ -245,6 +245,12 @@ class OutboxRelay(Entity):
             self.pending_count,
         )
 
+        # The relay events are handed to the engine here: stamp them with the time of
+        # the hand-over (the per-entry relay latencies above have already elapsed).
+        emit_time = self.now
+        for relay_event in relay_events:
+            relay_event.time = emit_time
+
         # Reschedule if there are more pending entries or keep polling
         result = relay_events
         if self.pending_count > 0 or self._entries_written > 0:
